@@ -12,7 +12,7 @@ use. C03 quantifies over *every* owning container of a block, so this file adds
   the call first creates ordinary data arrays `<name>-positions` / `<name>-extents` through
   `create_data_array`, and removes them again when a later step of the call is refused;
 
-and the history type `OpX` = the operations of `Store/Step.lean` plus these two.
+and the history type `OpX` = the operations of `Store/Step.lean` plus `create_data_frame`.
 Names are unique **per parent and entity kind**: each function looks into its own container only.
 -/
 namespace Nix.Store
@@ -83,18 +83,17 @@ def createMultiTagAuto (g : Graph) (ownerPath : Path) (name type : String) (with
                     | some ext => .ok (createLinkIn g4 k "extents" ext)
                   else .ok g4
 
-/-- the histories of C03: every operation of `Store/Step.lean`, `create_data_frame`, and
-`create_multi_tag` with raw positions / extents -/
+/-- the histories of C03's theorems: every operation of `Store/Step.lean` and `create_data_frame`
+(`createMultiTagAuto` is exercised by the correspondence; it is a composition of `createIn` for the
+arrays and of the steps of `createIn … "multi_tag"`, and is not a constructor of its own here) -/
 inductive OpX where
   | base (op : Op)
   | createFrame (owner : Path) (name type : String)
-  | createMultiTagAuto (owner : Path) (name type : String) (withExtents : Bool)
   deriving Repr, Inhabited
 
 def applyX (g : Graph) : OpX → Option (Except Err Graph)
   | .base op => apply g op
   | .createFrame o n t => some (createFrame g o n t)
-  | .createMultiTagAuto o n t e => some (createMultiTagAuto g o n t e)
 
 /-- the state after the call: unchanged when the call is refused (or could not be formed) -/
 def stepX (g : Graph) (op : OpX) : Graph :=
@@ -107,5 +106,10 @@ def runX (g : Graph) (ops : List OpX) : Graph := ops.foldl stepX g
 def ReachableX (g : Graph) : Prop := ∃ ops : List OpX, g = runX init ops
 
 theorem stepX_base (g : Graph) (op : Op) : stepX g (.base op) = step g op := rfl
+
+theorem runX_base (g : Graph) (ops : List Op) : runX g (ops.map .base) = run g ops := by
+  induction ops generalizing g with
+  | nil => rfl
+  | cons op rest ih => simp only [List.map_cons, runX, List.foldl_cons, run] at *; rw [stepX_base]; exact ih _
 
 end Nix.Store
